@@ -58,6 +58,10 @@ def materialise(t):
         v = df["kind"].astype(np.int64).to_numpy().copy()
         v[0] = 2
         df["kind"] = v
+    elif dt.get("kind") == "bool_frac":
+        v = df["kind"].astype(float).to_numpy().copy()
+        v[-1] = 0.5
+        df["kind"] = v
     elif dt.get("kind") == "object":
         df["kind"] = df["kind"].astype(object)
     if dt.get("bruttolohn_m") == "float_as_int":
